@@ -10,6 +10,7 @@ import Morlock.Proofs.FltOrder
 import Morlock.Proofs.FltBits
 import Morlock.Proofs.FltOps
 import Morlock.Proofs.FltSqrt
+import Morlock.Proofs.FltSqrtMono
 import Morlock.Proofs.FltNearest
 import Morlock.Proofs.FltInt
 /-!
